@@ -2,7 +2,7 @@
 # keep_mutant.sh <worktree> <pid> <k> <letter> "<confirm line>" "<checks result>" <initially_missed true|false>
 set -u
 WT=$1; PID=$2; K=$3; L=$4; CONF=$5; RES=$6; IM=$7
-D=/verif/seeded/$PID-9$L
+D=/verif/seeded/$PID-${ROUND:-9}$L
 mkdir -p "$D"
 cp "$WT/_seed/patch$K.diff" "$D/patch.diff"
 cp "$WT/_seed/seed_demo$K.rs" "$D/seed_demo.rs"
@@ -15,7 +15,7 @@ try:
     m=dict(m[0]) if m else {}
     m['property']=mm.get('property')
 except Exception as e: m={"error":str(e)}
-m['kind']="small classic mutant (round 9)"
+m['kind']="small classic mutant"
 m["confirmed_by_me"]=conf
 m["what_i_ran"]=["tools/confirm_mutant.sh %s %s  (demo without the mutant / demo with it / existing suite with it)"%(wt,k), "tools/try_seed.sh patch.diff <property>"]
 m["check_result"]=res
